@@ -77,7 +77,7 @@ def project_of(f):
 
 
 PATHS = [b"/a", b'"/a b"', b'"/a  b"', b'"/b /a"', b"/a\xff", b"/a\xfe", b'"/a\xff"', "/é".encode(), '"/é è"'.encode(),
-         b"/a/", b"/a//b", b"/./a", b"/../a", b'"/a\\"b"', b"/a\\b", b"/{id}", b"/a%20b", b"/a_b", b"/_", b"/%",
+         b"/a/", b"/a//b", b"/a/b", b"/./a", b"/../a", b'"/a\\"b"', b"/a\\b", b"/{id}", b"/a%20b", b"/a_b", b"/_", b"/%",
          b'"/ "', b"/\xef\xbf\xbd", b"/a\xc3", b"/a'b", b"/a<b>&", b"/\xe2\x80\xa8", b"/a\xe2\x80", b"/", b'"/a\tb"']
 METHODS = [b"x", b'"x /b"', b'"x y"', b'"x "', b'" x"', "é".encode(), b'"a\xff"', b'"a\xfe"', b'"a\\"b"',
            b'"json-rpc-2.0"', b'"<&>"', b'"x /b /a"']
